@@ -278,33 +278,39 @@ func runC31(r *Report) {
 		r.Anchor("R31b", name+": single-command arm", n == 1)
 	}
 	for _, name := range []string{"rueidis.MGetCache", "rueidis.JsonMGetCache", "rueidis.MDel"} {
-		fn := r.FnAnchor("R31b", name)
-		if fn == nil {
-			continue
-		}
-		n := 0
-		for _, s := range Sites(fn, func(in ssa.Instruction) bool {
-			st, ok := in.(*ssa.Store)
-			if !ok {
-				return false
-			}
-			_, isia := st.Addr.(*ssa.IndexAddr)
-			t := shortType(st.Val.Type())
-			return isia && (strings.HasSuffix(t, ".CacheableTTL") || strings.HasSuffix(t, ".Completed"))
-		}) {
-			n++
-			st := s.Instr.(*ssa.Store)
-			slot := st.Addr.(*ssa.IndexAddr).Index
-			_, ki, kok := elemOfDeep(st.Val)
-			r.ObSite("R31b", s, "command-i-built-from-key-i", kok && ki == slot, "the command stored at position i is built from keys[i]")
-		}
-		r.Anchor("R31b", name+": per-key command stores", n == 1)
-		// the mapper receives the same key list (cached variants)
-		for _, s := range CallSites(fn, "rueidis.doMultiCache") {
-			k := s.Call().Common().Args[3]
-			_, isParam := k.(*ssa.Parameter)
-			r.ObSite("R31b", s, "same-keys-for-commands-and-mapper", isParam && shortType(k.Type()) == "[]string", "doMultiCache labels replies with the key list the commands were built from")
-		}
+		perKeyCommandRule(r, "R31b", name)
 	}
 	_ = p
+}
+
+// perKeyCommandRule: a helper that builds one command per key stores the command built from keys[i]
+// at position i and hands the same key list to the mapper.
+func perKeyCommandRule(r *Report, rule, name string) {
+	fn := r.FnAnchor(rule, name)
+	if fn == nil {
+		return
+	}
+	n := 0
+	for _, s := range Sites(fn, func(in ssa.Instruction) bool {
+		st, ok := in.(*ssa.Store)
+		if !ok {
+			return false
+		}
+		_, isia := st.Addr.(*ssa.IndexAddr)
+		t := shortType(st.Val.Type())
+		return isia && (strings.HasSuffix(t, ".CacheableTTL") || strings.HasSuffix(t, ".Completed"))
+	}) {
+		n++
+		st := s.Instr.(*ssa.Store)
+		slot := st.Addr.(*ssa.IndexAddr).Index
+		_, ki, kok := elemOfDeep(st.Val)
+		r.ObSite(rule, s, "command-i-built-from-key-i", kok && ki == slot, "the command stored at position i is built from keys[i]")
+	}
+	r.Anchor(rule, name+": per-key command stores", n == 1)
+	// the mapper receives the same key list (cached variants)
+	for _, s := range CallSites(fn, "rueidis.doMultiCache") {
+		k := s.Call().Common().Args[3]
+		_, isParam := k.(*ssa.Parameter)
+		r.ObSite(rule, s, "same-keys-for-commands-and-mapper", isParam && shortType(k.Type()) == "[]string", "doMultiCache labels replies with the key list the commands were built from")
+	}
 }
